@@ -358,6 +358,9 @@ where
         let (write_half, read_half) = Self::split_stream(stream);
         self.write_half = write_half;
         self.read_half = read_half;
+
+        // The task that matched replies to pending requests was reading the old stream
+        poll_replies(self.read_half.clone(), self.pending_requests.clone());
     }
 
     fn get_connection(&self) -> SharedConnection {
